@@ -46,6 +46,7 @@ var (
 	cBeyondPlan    = simrt.RegisterCounter("probe_device_set_with_channel_beyond_plan")
 	cBlockOps      = simrt.RegisterCounter("op_whole_block_enable_disable")
 	cStreamClosure = simrt.RegisterCounter("probe_band_outputs_in_one_command_stream")
+	cFreshChanged  = simrt.RegisterCounter("probe_fresh_config_differs_after_run")
 )
 
 var names = []band.Name{band.EU868, band.US915, band.AU915, band.AS923, band.AS923_2, band.AS923_3, band.AS923_4,
@@ -97,7 +98,10 @@ type state struct {
 	grid       map[int]bool   // custom channels whose arguments were chosen on the region's grid
 	stream     []byte         // the commands of the current closure step, concatenated
 	streamCmds []*lorawan.MACCommand
-	enabled0   []int // enabled set of the brand-new band
+	enabled0   []int          // enabled set of the brand-new band
+	stdDown    []band.Channel // initial downlink table
+	nDown      int            // length of the downlink table (grows with every accepted AddChannel)
+	nTXPower   int            // length of the TX-power offset table
 	steps      int
 }
 
@@ -125,6 +129,21 @@ func operator(name band.Name, rep bool, dt lorawan.DwellTime, nOps int, sub uint
 		}
 		st.std = append(st.std, c)
 		st.m.Chans = append(st.m.Chans, spec.Chan{Freq: c.Frequency, MinDR: c.MinDR, MaxDR: c.MaxDR, Enabled: enabled[i]})
+	}
+	// table lengths, probed once on the brand-new band
+	for st.nDown < 1000 {
+		c, err := b.GetDownlinkChannel(st.nDown)
+		if err != nil {
+			break
+		}
+		st.stdDown = append(st.stdDown, c)
+		st.nDown++
+	}
+	for st.nTXPower < 1000 {
+		if _, err := b.GetTXPowerOffset(st.nTXPower); err != nil {
+			break
+		}
+		st.nTXPower++
 	}
 	st.observe(r)
 	st.closure(r)
@@ -154,7 +173,7 @@ func operator(name band.Name, rep bool, dt lorawan.DwellTime, nOps int, sub uint
 			}
 		}
 		if !same {
-			simrt.Report("band.fresh-config-changed:"+st.name, fmt.Sprintf("%s: a band obtained from GetConfig after this task's history differs from the one obtained before it", st.name))
+			simrt.Count(cFreshChanged) // band objects sharing state is property C10's subject (and is caught there)
 		}
 	}
 }
@@ -248,17 +267,10 @@ func (st *state) op(r *sim.Rand) {
 		simrt.Trace(evOp, 1, uint64(f))
 		if !st.m.SupportsExtra {
 			simrt.Count(cFixedAdd)
-			if err == nil {
-				simrt.Report("p2.addchannel-on-fixed-plan:"+st.name, fmt.Sprintf("AddChannel(%d,%d,%d) accepted by a fixed channel plan", f, minDR, maxDR))
-			}
-			return
 		}
 		if err != nil {
-			// a dynamic plan must take a channel on the region's grid; whether it
-			// validates junk arguments is its own business (the model is unchanged)
-			if grid {
-				simrt.Report("p2.addchannel-rejected:"+st.name, fmt.Sprintf("AddChannel(%d,%d,%d) refused by a dynamic channel plan: %v", f, minDR, maxDR, err))
-			}
+			// which arguments (and which regions) AddChannel takes is not in the
+			// statement: the model follows the band's answer
 			return
 		}
 		// whether a fresh channel starts enabled is read back once and then
@@ -270,6 +282,7 @@ func (st *state) op(r *sim.Rand) {
 			}
 		}
 		st.m.Add(f, minDR, maxDR, en)
+		st.nDown++ // AddChannel adds a downlink channel too
 		if grid {
 			st.grid[n] = true
 		}
@@ -368,14 +381,14 @@ func (st *state) observe(r *sim.Rand) {
 			simrt.Count(cBadIdx)
 			sim.Guard("panic.index", func() {
 				if _, err := b.GetDownlinkChannel(i); err == nil {
-					// downlink tables have their own length: only negative and huge indices are certainly invalid
-					if i < 0 || i > 1000 {
-						simrt.Report("p2.no-error:GetDownlinkChannel", fmt.Sprintf("%s: GetDownlinkChannel(%d) returned no error", st.name, i))
+					// the downlink table has its own length (it grows with AddChannel)
+					if i < 0 || i >= st.nDown {
+						simrt.Report("p2.no-error:GetDownlinkChannel", fmt.Sprintf("%s: GetDownlinkChannel(%d) returned no error on a downlink table of %d channels", st.name, i, st.nDown))
 					}
 				}
 			})
 			sim.Guard("panic.index", func() {
-				if _, err := b.GetTXPowerOffset(i); err == nil && (i < 0 || i > 1000) {
+				if _, err := b.GetTXPowerOffset(i); err == nil && (i < 0 || i >= st.nTXPower) {
 					simrt.Report("p2.no-error:GetTXPowerOffset", fmt.Sprintf("%s: GetTXPowerOffset(%d) returned no error", st.name, i))
 				}
 			})
@@ -387,6 +400,31 @@ func (st *state) observe(r *sim.Rand) {
 			sim.Guard("panic.index", func() { b.GetDataRate(i) })
 			sim.Guard("panic.index", func() { b.GetRX1ChannelIndexForUplinkChannelIndex(i) })
 			sim.Guard("panic.index", func() { b.GetMaxPayloadSizeForDataRateIndex("", "", i) })
+		}
+	}
+	// the first index beyond each table is an error, the last one inside is not
+	sim.Guard("panic.index", func() {
+		if _, err := b.GetDownlinkChannel(st.nDown); err == nil {
+			simrt.Report("p2.no-error:GetDownlinkChannel", fmt.Sprintf("%s: GetDownlinkChannel(%d) returned no error on a downlink table of %d channels", st.name, st.nDown, st.nDown))
+		}
+		if st.nDown > 0 {
+			if _, err := b.GetDownlinkChannel(st.nDown - 1); err != nil {
+				simrt.Report("p2.error-on-valid:GetDownlinkChannel", fmt.Sprintf("%s: GetDownlinkChannel(%d) on a downlink table of %d channels: %v", st.name, st.nDown-1, st.nDown, err))
+			}
+		}
+		if _, err := b.GetTXPowerOffset(st.nTXPower); err == nil {
+			simrt.Report("p2.no-error:GetTXPowerOffset", fmt.Sprintf("%s: GetTXPowerOffset(%d) returned no error on a table of %d offsets", st.name, st.nTXPower, st.nTXPower))
+		}
+	})
+	// standard downlink channels are never altered
+	for i, want := range st.stdDown {
+		var c band.Channel
+		var err error
+		if sim.Guard("panic.index", func() { c, err = b.GetDownlinkChannel(i) }) {
+			continue
+		}
+		if err != nil || c.Frequency != want.Frequency || c.MinDR != want.MinDR || c.MaxDR != want.MaxDR {
+			simrt.Report("p1.standard-altered:downlink", fmt.Sprintf("%s: standard downlink channel %d changed from %+v to %+v (%v)", st.name, i, want, c, err))
 		}
 	}
 	// lookups: a successful lookup returns an index whose channel matches
@@ -402,7 +440,17 @@ func (st *state) observe(r *sim.Rand) {
 					}
 				}
 			}
-			dr := mc.MinDR + r.Intn(3) - 1
+			// a frequency no channel has is not found
+			absent := uint32(1 + r.Intn(99))
+			for _, def := range []bool{true, false} {
+				if idx, err := b.GetUplinkChannelIndex(absent, def); err == nil {
+					simrt.Report("p1.lookup:GetUplinkChannelIndex", fmt.Sprintf("%s: GetUplinkChannelIndex(%d,%v) = %d although no channel has that frequency", st.name, absent, def, idx))
+				}
+			}
+			if idx, err := b.GetUplinkChannelIndexForFrequencyDR(absent, 0); err == nil {
+				simrt.Report("p1.lookup:GetUplinkChannelIndexForFrequencyDR", fmt.Sprintf("%s: GetUplinkChannelIndexForFrequencyDR(%d,0) = %d although no channel has that frequency", st.name, absent, idx))
+			}
+			dr := []int{mc.MinDR - 1, mc.MinDR, mc.MaxDR, mc.MaxDR + 1}[r.Intn(4)]
 			if idx, err := b.GetUplinkChannelIndexForFrequencyDR(mc.Freq, dr); err == nil {
 				if idx < 0 || idx >= n || m.Chans[idx].Freq != mc.Freq || dr < m.Chans[idx].MinDR || dr > m.Chans[idx].MaxDR {
 					simrt.Report("p1.lookup:GetUplinkChannelIndexForFrequencyDR", fmt.Sprintf("%s: GetUplinkChannelIndexForFrequencyDR(%d,%d) = %d, model channel there is %+v", st.name, mc.Freq, dr, idx, chanAt(m, idx)))
@@ -413,8 +461,9 @@ func (st *state) observe(r *sim.Rand) {
 			}
 		})
 	}
-	// enabled data-rates: sorted, unique, each inside some channel's range, and
-	// every data-rate of an enabled channel is present
+	// GetEnabledUplinkDataRates is not mentioned by the statement: exercised
+	// (it must not crash), not judged. A data-rate range wider than 64 (caller
+	// junk) makes it loop over the whole range and is not called then.
 	wide := false
 	for _, c := range m.Chans {
 		if c.MaxDR-c.MinDR > 64 {
@@ -422,35 +471,7 @@ func (st *state) observe(r *sim.Rand) {
 		}
 	}
 	if !wide {
-		sim.Guard("panic", func() {
-			drs := b.GetEnabledUplinkDataRates()
-			have := map[int]bool{}
-			for k, d := range drs {
-				if k > 0 && drs[k-1] >= d {
-					simrt.Report("p1.refine:GetEnabledUplinkDataRates", fmt.Sprintf("%s: not sorted/unique: %v", st.name, drs))
-				}
-				have[d] = true
-				inSome := false
-				for _, c := range m.Chans {
-					if d >= c.MinDR && d <= c.MaxDR {
-						inSome = true
-					}
-				}
-				if !inSome {
-					simrt.Report("p1.refine:GetEnabledUplinkDataRates", fmt.Sprintf("%s: data-rate %d is in no channel's range", st.name, d))
-				}
-			}
-			for _, c := range m.Chans {
-				if !c.Enabled {
-					continue
-				}
-				for d := c.MinDR; d <= c.MaxDR; d++ {
-					if !have[d] {
-						simrt.Report("p1.refine:GetEnabledUplinkDataRates", fmt.Sprintf("%s: data-rate %d of an enabled channel is missing from %v", st.name, d, drs))
-					}
-				}
-			}
-		})
+		sim.Guard("panic", func() { b.GetEnabledUplinkDataRates() })
 	}
 	st.cflist()
 }
@@ -465,17 +486,27 @@ func chanAt(m *spec.Plan, i int) interface{} {
 // cflist is P3.
 func (st *state) cflist() {
 	m := st.m
+	// the two readings of "its custom channels (first five, in order)": all
+	// custom channels, or (the library's documented reading) those with the
+	// data-rate range a CFList channel implicitly has
+	var allCustom []uint32
+	for _, c := range m.Chans {
+		if c.Custom && len(allCustom) < 5 {
+			allCustom = append(allCustom, c.Freq)
+		}
+	}
 	for _, v := range versions {
 		var cf *lorawan.CFList
 		if sim.Guard("panic", func() { cf = st.b.GetCFList(v) }) {
 			continue
 		}
 		old := v == band.LoRaWAN_1_0_0 || v == band.LoRaWAN_1_0_1 || v == band.LoRaWAN_1_0_2
+		known := old || v == band.LoRaWAN_1_0_3 || v == band.LoRaWAN_1_0_4 || v == band.LoRaWAN_1_1_0
 		if m.SupportsExtra {
 			want := m.CFListChannels()
 			if cf == nil {
-				if len(want) > 0 && want[0] != 0 {
-					simrt.Report("p3.cflist:"+st.name, fmt.Sprintf("GetCFList(%s) = nil although custom channels %v with the CFList data-rate range exist", v, want))
+				if len(want) > 0 && want[0] != 0 && len(allCustom) > 0 && allCustom[0] != 0 {
+					simrt.Report("p3.cflist:"+st.name, fmt.Sprintf("GetCFList(%s) = nil although custom channels %v exist", v, want))
 				}
 				continue
 			}
@@ -485,12 +516,16 @@ func (st *state) cflist() {
 				simrt.Report("p3.cflist:"+st.name, fmt.Sprintf("GetCFList(%s) of a dynamic plan is not a channel list: %s", v, sim.DeepSig(cf)))
 				continue
 			}
-			var exp [5]uint32
-			copy(exp[:], want)
-			if pl.Channels != exp {
-				simrt.Report("p3.cflist:"+st.name, fmt.Sprintf("GetCFList(%s) = %v, the first five custom channels with DR %d..%d are %v", v, pl.Channels, m.CFMinDR, m.CFMaxDR, want))
+			var exp1, exp2 [5]uint32
+			copy(exp1[:], want)
+			copy(exp2[:], allCustom)
+			if pl.Channels != exp1 && pl.Channels != exp2 {
+				simrt.Report("p3.cflist:"+st.name, fmt.Sprintf("GetCFList(%s) = %v; the first five custom channels are %v (with the CFList data-rate range %d..%d: %v)", v, pl.Channels, allCustom, m.CFMinDR, m.CFMaxDR, want))
 			}
 			continue
+		}
+		if !known {
+			continue // what an unknown version string gets is not defined
 		}
 		if old {
 			if cf != nil {
@@ -508,15 +543,13 @@ func (st *state) cflist() {
 			simrt.Report("p3.cflist:"+st.name, fmt.Sprintf("GetCFList(%s) of a fixed plan is not a channel mask: %s", v, sim.DeepSig(cf)))
 			continue
 		}
-		want := m.CFListMasks()
-		same := len(want) == len(pl.ChannelMasks)
-		for i := 0; same && i < len(want); i++ {
-			if [16]bool(pl.ChannelMasks[i]) != want[i] {
-				same = false
-			}
+		// "the exact enabled-channel masks" (trailing empty masks are padding)
+		want := &lorawan.CFList{CFListType: lorawan.CFListChannelMask, Payload: &lorawan.CFListChannelMaskPayload{}}
+		for _, mk := range m.CFListMasks() {
+			want.Payload.(*lorawan.CFListChannelMaskPayload).ChannelMasks = append(want.Payload.(*lorawan.CFListChannelMaskPayload).ChannelMasks, lorawan.ChMask(mk))
 		}
-		if !same {
-			simrt.Report("p3.cflist:"+st.name, fmt.Sprintf("GetCFList(%s) masks %v, model's enabled flags give %v", v, pl.ChannelMasks, want))
+		if !sameCFList(cf, want) {
+			simrt.Report("p3.cflist:"+st.name, fmt.Sprintf("GetCFList(%s) masks %v, model's enabled flags give %v", v, pl.ChannelMasks, m.CFListMasks()))
 		}
 	}
 }
